@@ -121,6 +121,70 @@ pub struct CallRecord {
 
 pub const DEFAULT_MAX_OPS: usize = 20_000;
 
+// ---- wall-clock watchdog -----------------------------------------------------------------------------------------
+// The socket-operation bound catches an exchange that never ends; a loop that spins without touching a socket is caught
+// here: every call registers itself, a watchdog thread ends the process (exit status 97) when one call has been running
+// for WATCHDOG_SECS, after writing the call's script to <report>.hang. (No library call legitimately takes that long on the
+// scripted transport: nothing blocks.)
+pub const WATCHDOG_SECS: u64 = 40;
+
+struct Slot {
+    started: Option<std::time::Instant>,
+    script: Option<ScriptJ>,
+    context: String,
+}
+
+static SLOTS: std::sync::Mutex<Vec<std::sync::Arc<std::sync::Mutex<Slot>>>> = std::sync::Mutex::new(Vec::new());
+static HANG_FILE: std::sync::Mutex<Option<String>> = std::sync::Mutex::new(None);
+
+thread_local! {
+    static MY_SLOT: std::sync::Arc<std::sync::Mutex<Slot>> = {
+        let s = std::sync::Arc::new(std::sync::Mutex::new(Slot { started: None, script: None, context: String::new() }));
+        SLOTS.lock().unwrap().push(s.clone());
+        s
+    };
+}
+
+/// what the current thread is working on (entry point, case), for the watchdog's report
+pub fn set_context(c: &str) { MY_SLOT.with(|s| s.lock().unwrap().context = c.to_string()); }
+
+pub fn start_watchdog(hang_file: String) {
+    *HANG_FILE.lock().unwrap() = Some(hang_file);
+    std::thread::spawn(|| loop {
+        std::thread::sleep(std::time::Duration::from_millis(500));
+        let slots: Vec<_> = SLOTS.lock().unwrap().clone();
+        for s in slots {
+            let g = s.lock().unwrap();
+            if let Some(t) = g.started {
+                if t.elapsed().as_secs() >= WATCHDOG_SECS {
+                    let j = json!({"kind":"hang-watchdog","context":g.context,"script":g.script,"seconds":t.elapsed().as_secs()});
+                    if let Some(p) = HANG_FILE.lock().unwrap().as_ref() {
+                        let _ = std::fs::write(p, j.to_string());
+                    }
+                    eprintln!("WATCHDOG: a call has not returned for {} s without exceeding the socket-operation bound ({})", t.elapsed().as_secs(), g.context);
+                    std::process::exit(97);
+                }
+            }
+        }
+    });
+}
+
+fn enter(script: &ScriptJ) {
+    MY_SLOT.with(|s| {
+        let mut g = s.lock().unwrap();
+        g.started = Some(std::time::Instant::now());
+        g.script = Some(script.clone());
+    });
+}
+
+fn leave() {
+    MY_SLOT.with(|s| {
+        let mut g = s.lock().unwrap();
+        g.started = None;
+        g.script = None;
+    });
+}
+
 /// Run `f` (a public entry point of the library) against the scripted transport.
 pub fn run_call<T: Serialize>(
     script: &ScriptJ,
@@ -128,6 +192,7 @@ pub fn run_call<T: Serialize>(
     f: impl FnOnce() -> gamedig::GDResult<T>,
 ) -> CallRecord {
     hook::install(script.to_hook(max_ops));
+    enter(script);
     crate::alloc::reset();
     let r = catch_unwind(AssertUnwindSafe(|| {
         let r = f();
@@ -141,6 +206,7 @@ pub fn run_call<T: Serialize>(
         }
     }));
     let (alloc_peak, alloc_max) = crate::alloc::read();
+    leave();
     let events = hook::uninstall();
     let outcome = match r {
         Ok(Ok(v)) => Outcome::Ok(v),
@@ -169,9 +235,11 @@ pub fn run_call_json(
     f: impl FnOnce() -> Result<Value, String>,
 ) -> CallRecord {
     hook::install(script.to_hook(max_ops));
+    enter(script);
     crate::alloc::reset();
     let r = catch_unwind(AssertUnwindSafe(f));
     let (alloc_peak, alloc_max) = crate::alloc::read();
+    leave();
     let events = hook::uninstall();
     let outcome = match r {
         Ok(Ok(v)) => Outcome::Ok(v),
